@@ -16,6 +16,9 @@ claimed = {
  "C05": dict(level="exploration", technique="property-based testing (rapid), differential / metamorphic: the same generated key bytes delivered under several read schedules (per token, random byte cuts, single paste, bytes glued to a cursor-position report) must give the same outcome",
    text="Schedules are owned by the harness: the gate delivers exactly the prescribed chunk to each read of the library and the emulated terminal can attach bytes to its cursor-position reports, so 'how bytes are split across reads' and 'arriving while the editor queries the cursor' are generated, shrinkable inputs; the oracle is equality of (line, error) or of the final editor state across schedules. Exploration over scripts x schedules.",
    note=RIG_NOTE + " ESC lone/prefix marking per the statement; valid UTF-8 only; two known findings excluded by construction and reported from regress cases.", ref="DESIGN.md §3 C05"),
+ "C06": dict(level="exploration", technique="property-based testing (rapid): generated editor states (scripts over the full key alphabet) x every documented movement/copy command by name x numeric arguments; invariants at every input wait + metamorphic 'movement leaves the text unchanged'",
+   text="Invariants on cursor, vi on-a-character rule and selection range are evaluated on the public-API snapshot taken at every main-loop input wait of every generated session; each named movement/copy command must leave the buffer text unchanged; a line returned by accept-line must equal the buffer at the preceding wait.",
+   note=RIG_NOTE, ref="DESIGN.md §3 C06"),
  "C07": dict(level="exploration", technique="property-based testing (rapid) + bounded-exhaustive enumeration of command sequences (stateful / history-based): invariants over the observed snapshot sequence of real pty sessions",
    text="Every command sequence of length 3 (quick) / 5 (thorough) over a 13-command alphabet from two start states in emacs and vi modes is executed, and random sequences up to length 60 beyond; four history invariants (undo membership, reach-initial, undo^n redo^n = id, redo branch discarded by an edit) are checked over the buffers observed at every input wait. The exhaustive part is reported as exhaustive_subspaces inside an exploration-level record.",
    note=RIG_NOTE + " One command per read.", ref="DESIGN.md §3 C07"),
